@@ -303,7 +303,9 @@ class Ctx:
                 j += 1
             chunk = case_terms[k:j]
             body = [header, extra_defs]
-            body.append("Definition cases := " + coq_list(chunk) + ".")
+            # the element type comes from the checker's domain, so that components that are empty lists in every case of a shard are typed
+            body.append(f"Definition the_check := ({check_fn}).")
+            body.append("Definition cases := ltac:(let t := type of the_check in match t with ?A -> _ => exact (" + coq_list(chunk) + " : list A) end).")
             body.append(f"Definition results : list bool := Eval vm_compute in (map ({check_fn}) cases).")
             body.append("Definition bad : list nat := Eval vm_compute in (failing_idx results).")
             body.append("Eval vm_compute in bad.")
@@ -350,7 +352,8 @@ class Ctx:
             while j < len(case_terms) and j - k < shard and (size < max_bytes or j == k):
                 size += len(case_terms[j])
                 j += 1
-            body = [header, "Definition cases := " + coq_list(case_terms[k:j]) + ".",
+            body = [header, f"Definition the_code := ({code_fn}).",
+                    "Definition cases := ltac:(let t := type of the_code in match t with ?A -> _ => exact (" + coq_list(case_terms[k:j]) + " : list A) end).",
                     f"Definition codes : list nat := Eval vm_compute in (map ({code_fn}) cases).",
                     "Eval vm_compute in codes.",
                     "Definition bad : list nat := Eval vm_compute in (failing_idx (map (Nat.eqb 0) codes)).",
